@@ -96,11 +96,9 @@ def observe(ctx: Ctx, sc: Scenario) -> Dict[str, Any]:
         storage = make_storage(p, st_cls, {})
         the_dag = AObj(('ext', 'DAG'), {'graph': graph, 'node_map': {'D': dest_cls, 'S': TOP, 'M': TOP, 'C': TOP, 'I': TOP}, 'input_node': 'I',
                                         'output_node': 'C'}, tag='DAG')
-        lock = AObj(('ext', 'LockManager'), {}, tag='lock-manager')
+        from .common import lock_world
+        lock, lock_stubs = lock_world(ctx, lambda kind, name: log['notify'].append((kind, name)))
         ext = {}
-        for nm in ('unlock_condition', 'unlock_event', 'wait_for_condition', 'wait_for_event'):
-            ext[f'world.lock.{nm}'] = (lambda nm: (lambda a, k: log['notify'].append((nm, a[0] if a else None))))(nm)
-            lock.attrs[nm] = AExt(f'world.lock.{nm}')
         mgr = AObj(mgr_cls, {'dag': the_dag, 'ctx': TOP, '_lock_manager': lock, '_alias_run_method': 'run'}, tag='manager')
         for name, (ann, default) in mgr_cls.fields.items():
             t_ = p.ann_to_type(ann, mgr_cls.module) if ann is not None else None
@@ -155,7 +153,7 @@ def observe(ctx: Ctx, sc: Scenario) -> Dict[str, Any]:
             log['default'].append({kk: (vv if not isinstance(vv, AObj) else vv.tag) for kk, vv in k.items()})
             set_result(k.get('node_id', a[1] if len(a) > 1 else None), default)
             return None
-        stubs = {run_dag.fid: run_dag_stub}
+        stubs = {run_dag.fid: run_dag_stub, **lock_stubs}
         if run_node is not None:
             stubs[run_node.fid] = run_node_stub
         interp = Interp(p, oracle, stubs=stubs, ext_stubs=ext)
